@@ -937,7 +937,11 @@ impl Formatter {
                 self.writer.write("f\"");
                 for part in parts {
                     match part {
-                        FStringPart::Literal(s) => self.writer.write(s),
+                        FStringPart::Literal(s) => {
+                            // Literal text was unescaped by the lexer: restore escapes and doubled braces.
+                            self.writer
+                                .write(&escape_string(s).replace('{', "{{").replace('}', "}}"))
+                        }
                         FStringPart::Expr(expr) => {
                             self.writer.write("{");
                             self.format_expr(&expr.node);
@@ -997,7 +1001,8 @@ impl Formatter {
     fn format_literal(&mut self, lit: &Literal) {
         match lit {
             Literal::Int(n) => self.writer.write(&n.to_string()),
-            Literal::Float(f) => self.writer.write(&f.to_string()),
+            // `{:?}` keeps a float spelling (`1.0`, `1e300`); `to_string` prints `1`, which reads back as an int.
+            Literal::Float(f) => self.writer.write(&format!("{:?}", f)),
             Literal::String(s) => {
                 self.writer.write("\"");
                 self.writer.write(&escape_string(s));
@@ -1006,7 +1011,9 @@ impl Formatter {
             Literal::Bytes(b) => {
                 self.writer.write("b\"");
                 for byte in b {
-                    if *byte >= 32 && *byte < 127 {
+                    if *byte == b'\\' || *byte == b'"' {
+                        self.writer.write(&format!("\\{}", *byte as char));
+                    } else if *byte >= 32 && *byte < 127 {
                         self.writer.write(&(*byte as char).to_string());
                     } else {
                         self.writer.write(&format!("\\x{:02x}", byte));
